@@ -530,11 +530,22 @@ func (w *Walker) evalBool(v ssa.Value, ps *pstate) Tri {
 			// a nil test of a value the path has made definite (`row, ok, err := r0, r1, r2` after an
 			// inlined helper ended with `r2 = nil`; an error that was just constructed)
 			if opnd, nilWhenTrue, isNT := nilTest(x); isNT {
-				t := w.cur.tm.of(opnd)
-				if kc, isK := t.Val.(*ssa.Const); isK && t.Kind == "const" && kc.Value == nil {
+				rv := opnd
+				for i := 0; i < 16; i++ {
+					ph, isPhi := rv.(*ssa.Phi)
+					if !isPhi || w.cur.tm.phiOf == nil {
+						break
+					}
+					e := w.cur.tm.phiOf(ph)
+					if e == nil {
+						break
+					}
+					rv = e
+				}
+				if kc, isK := rv.(*ssa.Const); isK && kc.Value == nil {
 					return tri(nilWhenTrue)
 				}
-				if t.Val != nil && definitelyNonNil(t.Val, 0) {
+				if _, isPhi := rv.(*ssa.Phi); !isPhi && definitelyNonNil(rv, 0) {
 					return tri(!nilWhenTrue)
 				}
 			}
